@@ -26,6 +26,17 @@ pub enum Op {
     Reopen,
     /// close and open again with other merge thresholds (they are a parameter of every open)
     ReopenAs(Thr),
+    /// set the n keys f00000 .. to generation-g values (COUNT thresholds: thousands of keys)
+    Fill(u16, u8),
+    /// delete every step-th of the n keys f00000 ..
+    Drain(u16, u8),
+}
+
+pub fn bulk_key(i: usize) -> Vec<u8> {
+    format!("f{:05}", i).into_bytes()
+}
+pub fn bulk_val(g: u8, i: usize) -> Vec<u8> {
+    format!("{}-{}", g, i).into_bytes()
 }
 
 pub const NEVER_KEY: u8 = 9;
@@ -63,6 +74,8 @@ impl Op {
             Op::Merge => json!(["merge"]),
             Op::Reopen => json!(["reopen"]),
             Op::ReopenAs(t) => json!(["reopen_as", t.name()]),
+            Op::Fill(n, g) => json!(["fill", n, g]),
+            Op::Drain(n, st) => json!(["drain", n, st]),
         }
     }
     pub fn from_json(v: &Value) -> Option<Op> {
@@ -73,6 +86,8 @@ impl Op {
             "merge" => Some(Op::Merge),
             "reopen" => Some(Op::Reopen),
             "reopen_as" => Some(Op::ReopenAs(Thr::parse(a.get(1)?.as_str()?))),
+            "fill" => Some(Op::Fill(a.get(1)?.as_u64()? as u16, a.get(2)?.as_u64()? as u8)),
+            "drain" => Some(Op::Drain(a.get(1)?.as_u64()? as u16, a.get(2)?.as_u64()? as u8)),
             _ => None,
         }
     }
@@ -83,6 +98,8 @@ impl Op {
             Op::Merge => "merge".into(),
             Op::Reopen => "reopen".into(),
             Op::ReopenAs(t) => format!("reopen[thresholds {}]", t.name()),
+            Op::Fill(n, g) => format!("set(f00000..f{:05}, generation {})", *n as usize - 1, g),
+            Op::Drain(n, st) => format!("del(every {}-th of f00000..f{:05})", st, *n as usize - 1),
         }
     }
 }
@@ -284,6 +301,12 @@ impl Exec {
         e.reopen()?;
         Ok(e)
     }
+    /// Open a directory as it is (recovery), without wiping it first.
+    pub fn open_existing(dir: &Path, cfg: Cfg) -> Result<Exec, String> {
+        let mut e = Exec { dir: dir.to_path_buf(), cfg, kv: None, h: None, model: Kv::new(), incarnation: 0 };
+        e.reopen()?;
+        Ok(e)
+    }
     pub fn reopen(&mut self) -> Result<(), String> {
         self.h = None;
         self.kv = None;
@@ -326,6 +349,34 @@ impl Exec {
                 let h = self.h();
                 let r = catch(|| h.verif_merge()).map(|r| r.map_err(|e| e.to_string()));
                 (format!("{:?}", r), "Ok(Ok(()))".into())
+            }
+            Op::Fill(n, g) => {
+                let h = self.h.clone().unwrap();
+                let mut out = "Ok(Ok(()))".to_string();
+                for i in 0..n as usize {
+                    let (k, v) = (bulk_key(i), bulk_val(g, i));
+                    let r = catch(|| h.set(b(k.clone()), b(v.clone()))).map(|r| r.map_err(|e| e.to_string()));
+                    self.model.insert(k, v);
+                    if format!("{:?}", r) != "Ok(Ok(()))" {
+                        out = format!("{:?} at key {}", r, i);
+                        break;
+                    }
+                }
+                (out, "Ok(Ok(()))".into())
+            }
+            Op::Drain(n, st) => {
+                let h = self.h.clone().unwrap();
+                let mut out = "Ok(Ok(()))".to_string();
+                for i in (0..n as usize).step_by(st.max(1) as usize) {
+                    let k = bulk_key(i);
+                    let r = catch(|| h.del(b(k.clone()))).map(|r| r.map_err(|e| e.to_string()));
+                    let want = self.model.remove(&k).is_some();
+                    if format!("{:?}", r) != format!("Ok(Ok({}))", want) {
+                        out = format!("{:?} at key {} (model: {})", r, i, want);
+                        break;
+                    }
+                }
+                (out, "Ok(Ok(()))".into())
             }
             Op::Reopen | Op::ReopenAs(_) => {
                 if let Op::ReopenAs(t) = op {
@@ -664,6 +715,7 @@ fn run_word_here(prop: &str, cfg: Cfg, word: &[Op], keys: &[u8], o: Oracles, tra
             return res;
         }
     }
+    let bulk_n: usize = preload.iter().chain(word.iter()).map(|o| if let Op::Fill(n, _) | Op::Drain(n, _) = o { *n as usize } else { 0 }).max().unwrap_or(0);
     let mut before = list_dir(dir);
     let mut outcome = vec![];
     'steps: for (i, op) in word.iter().enumerate() {
@@ -726,6 +778,24 @@ fn run_word_here(prop: &str, cfg: Cfg, word: &[Op], keys: &[u8], o: Oracles, tra
             }
         };
         let reads = if o.kv { check_reads(&e, keys, prop, &mut viol, i) } else { read_all(&e, keys) };
+        if o.kv && bulk_n > 0 && viol.len() < 6 {
+            let h = e.h.clone().unwrap();
+            let mut bad = 0;
+            for j in 0..bulk_n {
+                let k = bulk_key(j);
+                let want = e.model.get(&k).cloned();
+                let got = if h.verif_pool().0 == 0 { Err("HANG: reader pool empty".to_string()) } else { catch(|| h.get(b(k.clone()))).and_then(|r| r.map(|o| o.map(|v| v.to_vec())).map_err(|e| format!("Err: {}", e))) };
+                if got.as_ref().ok() != Some(&want) {
+                    bad += 1;
+                    if bad == 1 {
+                        viol.push((format!("{}:{}", prop, if got.is_err() { "get-error" } else { "wrong-read" }), format!("get({}) = {:?}, model {:?} (key {} of {})", hex(&k), got.as_ref().map(|o| o.as_ref().map(|v| hex(v))), want.as_ref().map(|v| hex(v)), j, bulk_n), Some(i)));
+                    }
+                }
+            }
+            if bad > 1 {
+                viol.push((format!("{}:wrong-read", prop), format!("{} of {} bulk keys read wrongly after this step", bad, bulk_n), Some(i)));
+            }
+        }
         for (k, r) in &reads {
             dig.push(*k);
             dig.extend_from_slice(format!("{:?}", r.as_ref().map(|o| o.as_ref().map(|v| fnv(v)))).as_bytes());
@@ -952,7 +1022,8 @@ pub fn plan(prop: &str, tier: Tier, seeds: &[u64]) -> Vec<Sweep> {
     let kv = Oracles { kv: true, ..Default::default() };
     let main_keys = vec![0u8, 1, NEVER_KEY];
     let all_thr = [Thr::All, Thr::Dead, Thr::Size27, Thr::Size100, Thr::Frag, Thr::None];
-    let mfss = [0u64, 60, MFS_BIG];
+    // 27: a limit that one small entry fills exactly
+    let mfss = [0u64, 27, 60, MFS_BIG];
     let full = vec![SET_A1, SET_A22, SET_B1, DEL_A, DEL_B, Op::Merge, Op::Reopen, SET_BBIG];
     let wide_keys: Vec<u8> = vec![0, 2, 3, 4, NEVER_KEY];
     let wide_ops = |with_merge: bool, with_reopen: bool| -> Vec<Op> {
@@ -1068,6 +1139,29 @@ pub fn plan(prop: &str, tier: Tier, seeds: &[u64]) -> Vec<Sweep> {
         }
         sweeps.push(Sweep { name: "scale".into(), alphabet: vec![], depth: 0, cfgs, oracles, keys, trailing_reopens: 0, preload: vec![], words });
     };
+    // COUNT thresholds: thousands of keys in one store (a merge pass over > 4096 entries, > 65 536
+    // entries, > 256 files, every DashMap shard holding many keys)
+    let bulk = |sweeps: &mut Vec<Sweep>, oracles: Oracles| {
+        let ns: Vec<u16> = if tier == Tier::Quick { vec![257, 4097, 10_000] } else { vec![255, 256, 257, 1000, 4095, 4096, 4097, 10_000, 40_000, 65_535] };
+        let mut words = vec![];
+        for &n in &ns {
+            words.push(vec![Op::Fill(n, 1), Op::Merge, Op::Reopen, Op::Merge]);
+            words.push(vec![Op::Fill(n, 1), Op::Drain(n, 2), Op::Merge, Op::Reopen, Op::Fill(n / 2, 2), Op::Merge]);
+            words.push(vec![Op::Fill(n, 1), Op::Fill(n, 2), Op::Merge, Op::Merge, Op::Reopen, Op::Drain(n, 3), Op::Merge, Op::Reopen]);
+        }
+        let mut cfgs = vec![];
+        for mfs in [1000u64, 100_000, MFS_BIG] {
+            for thr in [Thr::All, Thr::Dead] {
+                for (cache, conc) in [(1usize, 1usize), (0, 2)] {
+                    if tier == Tier::Quick && (cache, conc) == (0, 2) && mfs != 1000 {
+                        continue;
+                    }
+                    cfgs.push(Cfg { mfs, thr, cache, conc, seed: seeds[0], sync_always: false, clock: 0 });
+                }
+            }
+        }
+        sweeps.push(Sweep { name: "bulk".into(), alphabet: vec![], depth: 0, cfgs, oracles, keys: vec![NEVER_KEY], trailing_reopens: 0, preload: vec![], words });
+    };
     // Non-initial states: the store is first filled and fully merged under ALL thresholds (its data
     // now sits in hinted merge outputs), then re-opened with the thresholds under test. Two merges
     // with DIFFERENT selections are far beyond the word depth otherwise.
@@ -1101,6 +1195,7 @@ pub fn plan(prop: &str, tier: Tier, seeds: &[u64]) -> Vec<Sweep> {
             let cold: Vec<Cfg> = core_grid(&seeds[..1], &[Thr::All, Thr::Dead], &[0, 60, MFS_BIG]).into_iter().map(|c| Cfg { cache: 0, conc: 2, ..c }).collect();
             sweeps.push(Sweep { name: "wide-cold-readers".into(), alphabet: wide_ops(true, false), depth: tier.pick(2, 3), cfgs: cold, oracles: kv, keys: wide_keys.clone(), trailing_reopens: 0, preload: vec![], words: vec![] });
             scale(&mut sweeps, kv);
+            bulk(&mut sweeps, kv);
             sweeps.push(Sweep { name: "clock".into(), alphabet: vec![SET_A1, SET_A22, SET_B1, SET_BBIG, DEL_A, DEL_B, Op::Merge], depth: tier.pick(4, 5), cfgs: with_clocks(core_grid(&seeds[..1], &[Thr::All, Thr::Dead], &[0, MFS_BIG])), oracles: kv, keys: main_keys.clone(), trailing_reopens: 0, preload: vec![], words: vec![] });
         }
         "C02" => {
@@ -1128,6 +1223,7 @@ pub fn plan(prop: &str, tier: Tier, seeds: &[u64]) -> Vec<Sweep> {
             sweeps.push(Sweep { name: "cache-conc".into(), alphabet: full.clone(), depth: 4, cfgs: cache_conc_grid(seeds[0], Thr::Size27), oracles: kv, keys: main_keys.clone(), trailing_reopens: 0, preload: vec![], words: vec![] });
             after_merge(&mut sweeps, tier.pick(4, 5), kv);
             scale(&mut sweeps, kv);
+            bulk(&mut sweeps, kv);
             sweeps.push(Sweep { name: "clock".into(), alphabet: full.clone(), depth: tier.pick(4, 5), cfgs: with_clocks(core_grid(&seeds[..1], &[Thr::All, Thr::Dead, Thr::Size27], &[0, MFS_BIG])), oracles: kv, keys: main_keys.clone(), trailing_reopens: 0, preload: vec![], words: vec![] });
             sweeps.push(Sweep { name: "wide".into(), alphabet: wide_ops(true, true), depth: tier.pick(2, 3), cfgs: core_grid(&seeds[..1], &[Thr::All, Thr::Size27], &[0, 60]), oracles: kv, keys: wide_keys.clone(), trailing_reopens: 0, preload: vec![], words: vec![] });
             let cold: Vec<Cfg> = core_grid(&seeds[..1], &[Thr::All, Thr::Size27], &[0, 60]).into_iter().map(|c| Cfg { cache: 0, conc: 2, ..c }).collect();
